@@ -101,16 +101,19 @@ func tokenizeStream(src io.Reader, normalize bool, dict *dictionary, updateDict 
 		// Fill up the buffer with bytes to extract runes from
 		// idx is offset to hold any bytes left over from previous reads
 		n, err := io.ReadFull(src, rbuf[idx:])
+		// Only the first end bytes of the buffer hold data of this stream; what
+		// follows is left over from an earlier refill and must not be decoded.
+		end := idx + n
 		if isEOF(err) {
 			// There are no more bytes to read, so we must now consume all bytes in the
 			// buffer.
-			tgt = idx + n
+			tgt = end
 		} else if err != nil {
 			return nil, err
 		}
 
 		for idx = 0; idx < tgt; {
-			r, n := utf8.DecodeRune(rbuf[idx:])
+			r, n := utf8.DecodeRune(rbuf[idx:end])
 			idx += n
 
 			if r == '\n' {
